@@ -297,11 +297,50 @@ class Ctx:
             self.obligations.append(Obligation(name, 'failed', model=m, secs=secs, smt2=smt2,
                                                where=where, detail=str(goal)[:2000]))
             return False
+        reason = self.solver.reason_unknown()
+        # portfolio: the incremental context gave up -- try a fresh z3 context, then cvc5
+        s2 = z3.Solver()
+        s2.set('timeout', self.goal_timeout_ms)
+        s2.add(self.pc)
+        s2.add(z3.Not(goal))
         if smt2 is None:
-            s2 = z3.Solver()
-            s2.add(self.pc)
-            s2.add(z3.Not(goal))
             smt2 = s2.to_smt2()
+        t1 = time.time()
+        r2 = s2.check()
+        backend = 'z3'
+        if r2 == z3.unknown:
+            r2 = self._cvc5(smt2)
+            backend = 'cvc5'
+        self.solver_secs += time.time() - t1
+        secs = time.time() - t0
+        if r2 == z3.unsat:
+            self.obligations.append(Obligation(name, 'proved', secs=secs, smt2=smt2, where=where,
+                                               backend=backend))
+            return True
+        if r2 == z3.sat and backend == 'z3':
+            self.obligations.append(Obligation(name, 'failed', model=s2.model(), secs=secs,
+                                               smt2=smt2, where=where, detail=str(goal)[:2000]))
+            return False
         self.obligations.append(Obligation(name, 'unknown', secs=secs, smt2=smt2, where=where,
-                                           detail=self.solver.reason_unknown()))
+                                           detail=reason))
         return None
+
+    def _cvc5(self, smt2):
+        import os
+        import subprocess
+        import tempfile
+        with tempfile.NamedTemporaryFile('w', suffix='.smt2', delete=False) as f:
+            f.write(smt2)
+            path = f.name
+        try:
+            t = max(10, self.goal_timeout_ms // 1000)
+            r = subprocess.run(['/usr/bin/cvc5', '--lang=smt2', f'--tlimit={t * 1000}', path],
+                               capture_output=True, text=True, timeout=t + 10)
+            out = (r.stdout or '').strip().splitlines()
+            if out and out[0] == 'unsat':
+                return z3.unsat
+            return z3.unknown        # a cvc5 'sat' carries no model we could replay: undecided
+        except Exception:
+            return z3.unknown
+        finally:
+            os.unlink(path)
